@@ -8,9 +8,12 @@ def k(n):
     return "%.1fM" % (n / 1e6) if n >= 1e6 else ("%dk" % round(n / 1e3) if n >= 1e4 else ("%.1fk" % (n / 1e3) if n >= 1e3 else str(n)))
 s = open(os.path.join(HERE, "DESIGN.md")).read()
 out = []
+in04 = False
 for line in s.split("\n"):
+    if line.startswith("### 0.4"): in04 = True
+    elif line.startswith("### 0.5"): in04 = False
     m = re.match(r"^\| (C\d\d) \|", line)
-    if m and line.count("|") == 6:
+    if in04 and m and line.count("|") == 6:
         pid = m.group(1)
         try:
             e = json.load(open(os.path.join(HERE, "evidence", pid + ".json")))
